@@ -176,6 +176,13 @@ func (g *gen) store(fr *frame, n *node, st *State, addr ssa.Value, val Val, pos 
 	default:
 		g.safety(n, "nil", "", pos, not(app("=", ref, "null")))
 	}
+	if _, ok := addr.(*ssa.IndexAddr); ok {
+		for _, ic := range g.P.spec.ImmutableCells {
+			if name, _, ok := g.cellsVar(ic.Loc, ic.PkgPath, ic.Imports); ok && name == cellMapName(pt.Elem()) {
+				g.safety(n, "immutable", "cells", pos, app(">=", app("rootid", ref), g.c.declareConst("$nxt@init", "Int")))
+			}
+		}
+	}
 	if ia, ok := addr.(*ssa.IndexAddr); ok && !g.c.strMode {
 		if sl, ok := ia.X.Type().Underlying().(*types.Slice); ok {
 			if b, ok := sl.Elem().Underlying().(*types.Basic); ok && b.Kind() == types.Uint8 {
@@ -262,6 +269,9 @@ func (g *gen) execInstr(fr *frame, cur *node, st *State, ins ssa.Instruction) *n
 			g.safety(cur, "nil", "", x.Pos(), not(app("=", base, "null")))
 		}
 		fr.vals[x] = app("fld", base, fmt.Sprint(x.Field))
+		if fa := g.fieldAccessOf(fr, x); fa != nil {
+			g.fieldRefs[fr.vals[x].(string)] = fa
+		}
 	case *ssa.Field:
 		sv, ok := g.val(fr, x.X).(*SV)
 		if !ok {
